@@ -183,7 +183,7 @@ func runLoss(c LossCase) ev.Verdict {
 				return ev.Fail("%s lost (%s) after byte %d of %d (needs %d) reported success with %q", c.Op, c.Kind, k, length, needed, res)
 			}
 
-			if s.wantResult != "" && strings.TrimSpace(res) != strings.TrimSpace(s.wantResult) {
+			if s.wantResult != "" && normRes(res) != normRes(s.wantResult) {
 				return ev.Fail("%s: success with result %q, want %q", c.Op, res, s.wantResult)
 			}
 
